@@ -11,20 +11,45 @@ from .c06 import build_loss, loss_patches, last_flow, STATES, PARAMS
 from .c07 import _first_flow_of_call, NS, NP
 
 
-def jtj_unit(sel, tp, n, weighted):
+def jtj_unit(sel, tp, n, weighted, ts_sel=None, pre_iv=False):
+    """pre_iv: the object has target_state and an initial-value evaluation (costIV elsewhere) comes first; it moves the
+    object's initial state, and jtj must then describe the residuals of the cost the object computes NOW"""
     def h(c):
         free = list(tp) if tp is not None else list(PARAMS)
+
+        def pre(L, x0_used, sym_mode):
+            if not pre_iv:
+                return
+            moved = [c.real("pre_iv_%s" % s, lo=1, hi=10) for s in ts_sel]
+            th_pre = [c.real("pre_th_%d" % k_, lo=0.1, hi=3) for k_ in range(len(L.theta))]
+            L.obj.costIV(arr(c, th_pre + moved) if sym_mode else np.array([float(v) for v in th_pre + moved]))
+            for s, v in zip(ts_sel, moved):
+                x0_used[STATES.index(s)] = v if sym_mode else float(v)
         if c.mode == "sym":
             with stubs.integrator_stubs(c, eig="fixed") as book, stubs.patched(*loss_patches(c)):
-                L = build_loss(c, "Square", sel, tp, None, n, weighted, "scalar")
+                L = build_loss(c, "Square", sel, tp, ts_sel, n, weighted, "scalar")
+                x0_used = list(L.x0)
+                pre(L, x0_used, True)
+                n_before = len(book.integrators)
                 J = L.obj.jtj(L.theta_arg)
-                fl = _first_flow_of_call(book, None, c)
+                fl = None
+                for ig in book.integrators[n_before:]:
+                    y0 = list(np.asarray(ig._y0, dtype=object).ravel())
+                    if len(y0) > NS:
+                        fl = ig._flow
+                        c.prove(all_close(y0[:NS], x0_used, c), "the sensitivity system behind jtj starts from the object's current initial state")
+                        c.prove(all_close(y0[NS:], [0] * (len(y0) - NS), c), "the sensitivities behind jtj start from zero")
+                        break
+                if fl is None:
+                    fl = _first_flow_of_call(book, None, c)
                 rows = [book.at(fl, ti) for ti in L.t]
         else:
             # replay / fidelity: the real jtj with the real integrators; reference sensitivities from a
             # tight-tolerance integration of the hand-written SIR variational system (not through PyGOM)
             from scipy.integrate import solve_ivp
-            L = build_loss(c, "Square", sel, tp, None, n, weighted, "scalar")
+            L = build_loss(c, "Square", sel, tp, ts_sel, n, weighted, "scalar")
+            x0_used = [float(v) for v in L.x0]
+            pre(L, x0_used, False)
             J = L.obj.jtj(L.theta_arg)
             b_, g_ = float(L.bound["beta"]), float(L.bound["gamma"])
 
@@ -35,7 +60,7 @@ def jtj_unit(sel, tp, n, weighted):
                 G = np.array([[-S_ * J_, 0.0], [S_ * J_, -J_], [0.0, J_]])
                 Sm = np.reshape(z[3:], (3, 2), "F")
                 return np.concatenate([f, np.reshape(Jm.dot(Sm) + G, 6, "F")])
-            z0 = np.concatenate([[float(v) for v in L.x0], np.zeros(6)])
+            z0 = np.concatenate([x0_used, np.zeros(6)])
             sol = solve_ivp(aug, (float(L.t0), float(L.t[-1])), z0, method="DOP853", t_eval=[float(t_) for t_ in L.t], rtol=1e-12, atol=1e-13)
             rows = [sol.y[:, i] for i in range(len(L.t))]
         c.reachable("jtj evaluated")
@@ -67,7 +92,7 @@ def jtj_unit(sel, tp, n, weighted):
             c.prove(quad == zsum(pj * pj for pj in projs), "v' jtj v == sum of squares of the weighted sensitivity projections")
             qs = [c.real("proj%d" % k) for k in range(len(projs))]
             ok = c.prove(zsum(x_ * x_ for x_ in qs) >= 0, "a sum of squares is non-negative, hence v' jtj v >= 0 for every v (positive semi-definite)")
-    return Unit("C20.jtj[states=%s,target=%s,n=%d,w=%s]" % ("+".join(sel), "all" if tp is None else "+".join(tp), n, weighted), h,
+    return Unit("C20.jtj[states=%s,target=%s,n=%d,w=%s%s]" % ("+".join(sel), "all" if tp is None else "+".join(tp), n, weighted, ",ts=%s,after_costIV" % "+".join(ts_sel) if pre_iv else ""), h,
                 bounds={"times": n, "observed_states": list(sel), "target_param": tp, "weights": "symbolic" if weighted else "unit"},
                 program={"jtj": list(sel), "tp": tp}, max_paths=50, verdict_timeout_ms=30000)
 
@@ -219,7 +244,8 @@ class C20(Check):
 
     def units(self, tier, seed):
         us = [jtj_unit(("S",), None, 2, False), jtj_unit(("J", "S"), ("gamma", "beta"), 2, True), jtj_unit(("R", "J"), ("gamma",), 2, False),
-              jtj_unit(("R",), None, 2, True), jtj_unit(("R", "J"), None, 3, "per_state"), jtj_unit(("J", "S"), ("beta",), 3, "scalar")]
+              jtj_unit(("R",), None, 2, True), jtj_unit(("R", "J"), None, 3, "per_state"), jtj_unit(("J", "S"), ("beta",), 3, "scalar"),
+              jtj_unit(("J", "R"), None, 2, False, ts_sel=("J",), pre_iv=True)]
         names = ["xy_2s1e", "two_three", "ode_mixed", "bd_1s2e"] if tier == "quick" else \
             ["xy_2s1e", "two_three", "ode_mixed", "bd_1s2e", "sir", "saturating", "decay_1s1e", "exponential", "birth_by_origin"]
         for nm in names:
